@@ -35,6 +35,29 @@ def main():
 
         res = {str(i): syn.run_index(req["verif_seed"], i)["event_log_digest"]
                for i in range(req["lo"], req["hi"])}
+    elif kind == "syn_real":
+        # the same SYN plan on REAL multiprocessing (stub-fidelity cross-check)
+        import gc
+
+        from hypnotoad.utils.parallel_map import ParallelMap
+
+        from hsim import syn_tasks
+
+        plan = req["plan"]
+        eq = syn_tasks.FakeEquilibrium(plan["eq_tag"])
+        pm = ParallelMap(plan["np"], equilibrium=eq)
+        verdicts = []
+        for ci, call in enumerate(plan["calls"]):
+            args_list = [(ci, k, payload, fault) for k, payload, fault in call["tasks"]]
+            expected, _ = syn_tasks.serial_reference(eq, ci, call["tasks"], call["scale"])
+            try:
+                got = pm(syn_tasks.syn_task, args_list, scale=call["scale"])
+                verdicts.append(["returned", None, got == expected])
+            except BaseException as e:  # noqa: BLE001
+                verdicts.append(["raised", type(e).__name__, None])
+        del pm
+        gc.collect()
+        res = {"verdicts": verdicts}
     elif kind == "grid_digests":
         from hsim import engines, scenarios
 
